@@ -21,6 +21,9 @@ module.exports = function (repo, loadPrelude) {
       case 'substring':
         try { return U.strToHex(substring(U.hexToStr(a[1]), Number(a[2]), Number(a[3]))); }
         catch (e) { if (U.isRuntimeError(e) && /slice bounds out of range/.test(e.message)) return 'panic:slice-bounds'; throw e; }
+      case 'substringopen':
+        try { return U.strToHex(substring(U.hexToStr(a[1]), Number(a[2]))); }
+        catch (e) { if (U.isRuntimeError(e) && /slice bounds out of range/.test(e.message)) return 'panic:slice-bounds'; throw e; }
       case 'copy': {
         const n = Number(a[1]); const src = U.hexToStr(a[2]);
         const dst = { $array: new Uint8Array(n + 3).fill(0xEE), $offset: 2, $length: n };
